@@ -126,6 +126,8 @@ var c04Inputs = []string{
 	// a factory of closures over its own variables: every call makes a new one
 	"func counter(s) { c = s; () => { c = c + 1; c } }; ct = [counter(0), counter(0)]; println([ct[0](), ct[0](), ct[1]()])", "cn = counter(0); println(cn(), cn(), counter(0)())",
 	"func pairc(s) { c = s; [() => { c = c + 1; c }, 5] }; pa = pairc(0); pb = pairc(0); println([pa[0](), pa[0](), pb[0]()])",
+	// (known finding C04-K1, a consequence of C02-K2: two lambdas whose printed text is the same share their memo entries)
+	"fa9 = (a, b, c) => a + (b + c); fb9 = (a, b, c) => a + b + c; println(fa9(1e100, -1e100, 1.0), fb9(1e100, -1e100, 1.0))",
 	// functions made by another interpreter state: same text, different globals
 	"ua = unjson(\"N=1; ()=>N\"); ub = unjson(\"N=2; ()=>N\"); println(ua(), ub(), ua())",
 }
